@@ -13,13 +13,18 @@ TEXT = {
                 "in the range is either revoked or was accepted by verifyEntry under a policy state and an attestation state that were "
                 "in force during the walk (relLoop_sound_gen, C01_relative_sound, C01_full_sound) - unconditionally for the repaired "
                 "F2/F3 behaviour, and for the code as it stands under the explicit side conditions 'no propagation entry for a branch in "
-                "range' and 'nothing revoked in range'; the reported tip is the target of the latest entry; a reference without entries "
+                "range' and 'nothing revoked in range'; and verifyEntry's acceptance means what the property says for the Git rule: a consulted "
+                "rule is met by >= threshold distinct principals of its own, injectively credited through valid signatures over this entry / "
+                "this authorization or matched to code-review approvers (go_accept_rule_met, verifyObject_accept, C01_entry_accept), which "
+                "implies the declarative per-entry authorization of Spec/C01 - the principals contributed to EXACTLY this change "
+                "(ruleMet_count, ghApprovers_sound, C01_entry_authorized_git; F7 repaired, no global rules, well-defined principals); "
+                "the reported tip is the target of the latest entry; a reference without entries "
                 "never verifies. F1_witness / F2_witness / F3_witness: kernel-evaluated histories on which the model of the unchanged "
                 "code accepts what the declarative property (c01Sound) forbids, and the repaired variants reject. The declarative "
                 "property is evaluated by the driver on the verdict the REAL verifier returns for every generated history; the model "
                 "(open defects as explicit Variant flags) must reproduce every verdict and tip of the real code.",
-        "note": TB + "Not yet a theorem: that verifyEntry's acceptance implies the declarative per-entry authorization (the C05/C09 theorems cover "
-                "its building blocks), and that the states 'in force during the walk' are exactly the ones immediately preceding each entry. "
+        "note": TB + "Not yet theorems: the same declarative link for file rules and for policies with global rules, and that the states 'in force "
+                "during the walk' are exactly the ones immediately preceding each entry (C01_sound_statement stays a statement for that reason). "
                 "F1 (fixed in /repo, 00d1364) and F4 (fixed, 8a14108) stay in the corpus as regression witnesses; F2, F3 are open findings reproduced on every run.",
         "technique": "Lean 4 proof (loop invariant by induction on fuel, queue-partition lemma for recovery) + differential correspondence with spec evaluated on the implementation",
     },
